@@ -76,8 +76,11 @@ def cases(tier):
     return cs
 
 # ------------------------------------------------------------------ helpers
+_SEEN_U = []
 def U(it, s):
     """the real unfold_search; result as a list of (type, [(key, value)], string)"""
+    r = _U(it, s); _SEEN_U.append(r); return r
+def _U(it, s):
     tools = it.module('spil.sid.read.tools')
     r = it.call(tools.ns['unfold_search'], [s], {})
     out = []
@@ -130,7 +133,7 @@ def run(it, st, case):
     if kind == 'find': return run_find(it, st, case[1])
     T = case[1]; name = f'C10:unfold_search[{kind}]'
     vs = values(it, st, T); n = len(vs)
-    derived = []; got_all = None
+    derived = []; got_all = None; del _SEEN_U[:]
     try:
         if kind == 'or':
             i = case[2]; w = value_at(it, st, T, i, f'w{i}')
@@ -177,6 +180,8 @@ def run(it, st, case):
         st.observed = {'raises': V.exc_name(e)}; return 'ok'
     st.observed = {'result': [it.concat([t, ':', s_]) for t, _, s_ in (got_all or got)]}
     wf(it, st, name, got_all or got)
+    for k_, r_ in enumerate(_SEEN_U[1:]):          # the derived searches' own results are well formed too (typed, no unapplied query, no duplicates)
+        wf(it, st, name + '[derived]', r_)
     set_eq(it, st, f'{name}:{law}', got, want)
     return 'ok'
 
